@@ -174,3 +174,12 @@ package schemabuilder
 //@ func init$20$1
 //@   assume 0 <= i && i < len(deref(slice)) && 0 <= j && j < len(deref(slice))
 //@   ensures deref(slice)[i].value == deref(slice)[j].value ==> !result
+
+// ---- C15 (no panic while validating client-controlled arguments): the argument parser of a paginated field runs inside
+// PrepareQuery, outside every recover. Every entry of the connection-argument table was stored with the parser that
+// makeArgParser returned without error; the parser of the field's own arguments is nil when the resolver takes none, and
+// is dereferenced only after the nil check.
+//@ func schemaBuilder.buildPaginatedArgParser$1
+//@   keeps map[string]argField, argParser             // the parsers called here write their destination, never the parser tables
+//@   assume forall k string :: (k in deref(fields)) ==> deref(fields)[k].parser != nil
+//@   assume forall k string :: (k in deref(fields)) ==> deref(fields)[k].parser.FromJSON != nil
